@@ -40,7 +40,7 @@ def entry(x, rnames) -> Dict[str, str]:
     return {"k": "?", "v": str(x)[:30]}
 
 
-def run_case(a, b, names, rng) -> Dict[str, Any]:
+def run_case(a, b, names, rng, annotate_dir=None) -> Dict[str, Any]:
     from metador_core.util.diff import DirDiff
     rn = {v: k for k, v in names.items()}
     ha, hb = to_hashsums(a, names), to_hashsums(b, names)
@@ -60,7 +60,31 @@ def run_case(a, b, names, rng) -> Dict[str, Any]:
         g = d.get(Path(*[names.get(s, s) for s in p]))
         gets.append({"p": list(p), "found": g is not None, "st": d.status(g).value if g is not None else "0"})
     mutated = json.dumps(ha, sort_keys=True) != ca or json.dumps(hb, sort_keys=True) != cb
-    return {"a": a, "b": b, "nodes": nodes, "is_empty": bool(d.is_empty), "gets": gets, "mutated": mutated}
+    ev = {"a": a, "b": b, "nodes": nodes, "is_empty": bool(d.is_empty), "gets": gets, "mutated": mutated,
+          "hasann": False, "ann": []}
+    if annotate_dir is not None:
+        # materialise the new snapshot and annotate it
+        import os, shutil
+        base = Path(annotate_dir)
+        if base.exists():
+            shutil.rmtree(base)
+        base.mkdir(parents=True)
+        for e in sorted(b, key=lambda x: len(x["p"])):
+            if not e["p"]:
+                continue
+            p = base.joinpath(*[names.get(s, s) for s in e["p"]])
+            if e["k"] == "d":
+                p.mkdir()
+            elif e["k"] == "f":
+                p.write_bytes(e["v"].encode())
+            else:
+                os.symlink("nowhere", p)
+        ann = d.annotate(base)
+        ev["hasann"] = True
+        ev["ann"] = [{"p": [rn.get(s, s) for s in Path(k).relative_to(base).parts], "node": v is not None} for k, v in ann.items()]
+        ev["ann"] = [x for x in ev["ann"] if x["p"]] if not any(n["p"] == [] for n in nodes) else ev["ann"]
+        shutil.rmtree(base)
+    return ev
 
 
 def random_tree(rng: random.Random, keys: List[str], depth: int) -> List[Dict[str, Any]]:
@@ -142,7 +166,7 @@ def run(tier: str) -> int:
         for k in range(n_rand):
             t1 = random_tree(rng, keys, 3)
             t2 = mutate_tree(rng, t1, keys, 3) if k % 3 else random_tree(rng, keys, 3)
-            events.append(run_case(t1, t2, {}, rng))
+            events.append(run_case(t1, t2, {}, rng, annotate_dir=(wd / "ann") if k % (3 if quick else 5) == 0 else None))
         rep.parts["random_pairs"] = {"pairs": n_rand, "keys": keys, "depth": 3}
         for e in events:
             if e["mutated"]:
